@@ -1,0 +1,17 @@
+//go:build verif
+
+// Export shim for the external verification harness (/verif, property C17 part B: storage-key
+// injectivity). Compiled only with the build tag `verif`. Thin wrappers that make the unexported
+// put/get storage helpers reachable as black-box key constructors; no contract logic lives here.
+
+package ont
+
+import "github.com/polynetwork/poly/native"
+
+func VerifPutConsensusPeers(native *native.NativeService, consensusPeers *ConsensusPeers) error {
+	return putConsensusPeers(native, consensusPeers)
+}
+
+func VerifGetConsensusPeersByHeight(native *native.NativeService, chainID uint64, height uint32) (*ConsensusPeers, error) {
+	return getConsensusPeersByHeight(native, chainID, height)
+}
